@@ -131,15 +131,19 @@ pub fn run(prop: &str, tier: Tier) -> (RunMeta, Acc) {
             );
             let sb = std.small_bases.clone();
             let cfgs = vec![Cfg::new(80, 2, false), Cfg::new(0, 2, false), Cfg::new(40, 4, false)];
-            let hp = p_total::havoc_pool(std.snippet_bases.clone());
-            let parts = vec![
+            let snb = std.snippet_bases.clone();
+            let _ = sb;
+            let mut parts = vec![
                 Part::new(std.base_list(), 700, usize::MAX, fixed()),
-                Part::new(pools::comment_pool(sb.clone()), 600, 20_000, fixed()),
-                Part::new(pools::uni_pool(sb.clone()), 300, 10_000, fixed()),
-                Part::new(pools::eol_pool(sb.clone()), 200, 6000, fixed()),
-                Part::new(hp, 600, 30_000, fixed()),
+                Part::new(pools::stride(pools::comment_pool(snb.clone()), 8), 600, usize::MAX, fixed()),
+                Part::new(pools::stride(pools::uni_pool(snb.clone()), 4), 300, usize::MAX, fixed()),
+                Part::new(pools::stride(pools::eol_pool(snb.clone()), 2), 200, usize::MAX, fixed()),
+                Part::new(pools::stride(p_total::havoc_pool(snb.clone()), 10), 600, usize::MAX, fixed()),
                 Part::new(ListPool { name: "corpus(hostile)".into(), cases: corpus::hostile() }, 300, usize::MAX, fixed()),
             ];
+            for g in gen::all_gen_pools() {
+                parts.push(Part::new(pools::StridePool { inner: g, stride: 5 }, 250, usize::MAX, fixed()));
+            }
             let sampled = if tier == Tier::Quick { 60 } else { 300 };
             let (mut acc, pm) = workload::run_parts(&parts, tier, seed, |_, case, rng, acc| {
                 if case.text.len() > 200_000 {
@@ -259,7 +263,7 @@ pub fn run(prop: &str, tier: Tier) -> (RunMeta, Acc) {
             cases.extend(std.adversarial.clone());
             cases.extend(std.fixtures.iter().filter(|c| c.text.len() < 4000).cloned());
             let (n, threads, rounds, envn): (usize, Vec<usize>, usize, usize) =
-                if tier == Tier::Quick { (120, vec![2, 4, 16], 3, 40) } else { (600, vec![2, 4, 16, 64], 6, 200) };
+                if tier == Tier::Quick { (400, vec![2, 4, 16], 3, 100) } else { (1500, vec![2, 4, 16, 64], 6, 400) };
             let items = p_pure::build_items(&cases, n, &mut rng);
             let mut acc = Acc::new();
             p_pure::run(&items, &threads, rounds, seed, envn, &mut acc);
